@@ -255,7 +255,9 @@ def diag_a(chk, fx):
             chk.violation("DIAG-A", A.site(g), "DIAG-A:find_reduction_rule",
                           "find_reduction_rule returns %s" % [t.replace(I, "info")[:100] for t in rets])
         else:
-            chk.incomplete("find_reduction_rule: shape not recognised (returns %s)" % rets)
+            # another way of finding the item: no verdict from this clause (the index-space rule still says whether what is
+            # returned is a rule number as written)
+            chk.defer_incomplete("find_reduction_rule: shape not recognised (returns %s)" % rets)
 
 
 def diag_t(chk, fx):
